@@ -264,18 +264,6 @@ def maxIdx : Ast → Nat
   | .alt a b => max (maxIdx a) (maxIdx b)
   | _ => 0
 
-/-- generous upper bound for the number of NFA states plus range/split entries the compiler allocates -/
-def cost : Ast → Nat
-  | .empty => 1
-  | .chr _ => 1
-  | .cls rs => 1 + rs.length
-  | .look _ => 1
-  | .rep mn mx _ x => (match mx with | none => mn + 1 | some n => max mn n) * (cost x + 3) + 4
-  | .cap _ x => cost x + 2
-  | .cat a b => cost a + cost b
-  | .alt a b => cost a + cost b + 4
-
-
 /-! ### parser (src/hir/parse.rs) -/
 
 /-- parse outcome: `err` exactly when `Regex::new` fails, `unsup` when the pattern is outside the model -/
@@ -303,16 +291,33 @@ structure Flags where
   crlf : Bool := false      -- R
 deriving Repr, DecidableEq
 
-/-- a sub-expression with the height of its `Hir` tree (`check_hir_nesting` counts n-ary concatenations and
-    alternations as one level, the binary tree here does not remember that) -/
+/-- a sub-expression with what the later checks need and the binary tree does not remember:
+    `h` = height of the `Hir` tree (`check_hir_nesting` counts an n-ary concatenation/alternation as one level),
+    `states` = number of NFA states `Compiler::c` allocates for it, `extra` = its `memory_extra` in bytes
+    (8 per class range, 4 per split target), `nameExtra` = bytes charged once per named group. -/
 structure Item where
   ast : Ast
-  h : Nat
+  h : Nat := 0
+  states : Nat := 1
+  extra : Nat := 0
+  nameExtra : Nat := 0
 deriving Repr
+
+def Item.leaf (a : Ast) : Item := { ast := a }
+def Item.ofCls (rs : List (Nat × Nat)) : Item := { ast := .cls rs, extra := 8 * rs.length }
 
 def maxH : List Item → Nat
   | [] => 0
   | x :: xs => max x.h (maxH xs)
+def sumStates : List Item → Nat
+  | [] => 0
+  | x :: xs => x.states + sumStates xs
+def sumExtra : List Item → Nat
+  | [] => 0
+  | x :: xs => x.extra + sumExtra xs
+def sumNameExtra : List Item → Nat
+  | [] => 0
+  | x :: xs => x.nameExtra + sumNameExtra xs
 
 def foldCat : List Item → Ast
   | [] => .empty
@@ -323,22 +328,34 @@ def foldAlt : List Item → Ast
   | [x] => x.ast
   | x :: xs => .alt x.ast (foldAlt xs)
 
-/-- `Hir::concat` -/
+/-- `Hir::concat` / `c_concat` -/
 def mkConcat : List Item → Item
-  | [] => ⟨.empty, 0⟩
+  | [] => Item.leaf .empty
   | [x] => x
-  | xs => ⟨foldCat xs, maxH xs + 1⟩
-/-- `Hir::alternation` (never called with an empty list) -/
+  | xs => ⟨foldCat xs, maxH xs + 1, sumStates xs, sumExtra xs, sumNameExtra xs⟩
+/-- `Hir::alternation` (never called with an empty list) / `c_alternation`: one split, one join -/
 def mkAlt : List Item → Item
-  | [] => ⟨.empty, 0⟩
+  | [] => Item.leaf .empty
   | [x] => x
-  | xs => ⟨foldAlt xs, maxH xs + 1⟩
-/-- `Hir::repetition` -/
+  | xs => ⟨foldAlt xs, maxH xs + 1, sumStates xs + 2, sumExtra xs + 4 * xs.length, sumNameExtra xs⟩
+/-- `Hir::repetition` / `c_repetition` -/
 def mkRep (mn : Nat) (mx : Option Nat) (greedy : Bool) (x : Item) : Item :=
-  if mn = 0 ∧ mx = some 0 then ⟨.empty, 0⟩
+  if mn = 0 ∧ mx = some 0 then Item.leaf .empty
   else if mn = 1 ∧ mx = some 1 then x
-  else ⟨.rep mn mx greedy x.ast, x.h + 1⟩
-def mkCap (idx : Nat) (x : Item) : Item := ⟨.cap idx x.ast, x.h + 1⟩
+  else
+    let (st, ex) : Nat × Nat :=
+      match mx with
+      | none =>
+        if mn = 0 ∧ nullable x.ast then (x.states + 3, x.extra + 16)          -- compiled as `(x+)?`
+        else (max mn 1 * x.states + 1, max mn 1 * x.extra + 8)
+      | some n =>
+        if mn = 0 ∧ n = 1 then (x.states + 2, x.extra + 8)                     -- `c_zero_or_one`
+        else if mn = n then (n * x.states, n * x.extra)                          -- `c_exactly`
+        else ((if mn = 0 then 1 else mn * x.states) + 1 + (n - mn) * (x.states + 1), n * x.extra + (n - mn) * 8)
+    ⟨.rep mn mx greedy x.ast, x.h + 1, st, ex, x.nameExtra⟩
+/-- `Hir::capture` / `c_capture`; a name costs its length + 4 bytes -/
+def mkCap (idx : Nat) (nameLen : Option Nat) (x : Item) : Item :=
+  ⟨.cap idx x.ast, x.h + 1, x.states + 2, x.extra, x.nameExtra + (match nameLen with | some n => n + 4 | none => 0)⟩
 
 def isMeta (c : Char) : Bool :=
   c == '\\' || c == '.' || c == '+' || c == '*' || c == '?' || c == '(' || c == ')' || c == '|' || c == '[' || c == ']' ||
@@ -429,10 +446,10 @@ def hirChar (fl : Flags) (c : Char) : Prim :=
     | none => .chr c
   else .chr c
 
-def Prim.toAst : Prim → Ast
-  | .chr c => .chr c
-  | .cls rs => .cls rs
-  | .look l => .look l
+def Prim.toItem : Prim → Item
+  | .chr c => Item.leaf (.chr c)
+  | .cls rs => Item.ofCls rs
+  | .look l => Item.leaf (.look l)
 
 def specialBoundary (name : Str) : Option Look :=
   match String.ofList name with
@@ -682,7 +699,7 @@ def nameLoop : Nat → Str → Str → PR (Str × Str)
     else nameLoop f (c :: acc) t
 
 inductive GKind
-  | cap (idx : Nat)
+  | cap (idx : Nat) (nameLen : Option Nat)
   | non
 deriving Repr
 
@@ -728,7 +745,7 @@ def parseGroupOpen (st : PState) (cs : Str) : PR (PState × Str) :=
         else if st.names.any (fun p => p.1 == name) then .err "duplicate capture group name"
         else
           let idx := st.ncap + 1
-          match ({ st with ncap := idx, names := (name, idx) :: st.names } : PState).push st.flags (.cap idx) with
+          match ({ st with ncap := idx, names := (name, idx) :: st.names } : PState).push st.flags (.cap idx (some name.length)) with
           | .err e => .err e
           | .unsup w => .unsup w
           | .ok st' => .ok (st', r')
@@ -754,7 +771,7 @@ def parseGroupOpen (st : PState) (cs : Str) : PR (PState × Str) :=
           | _ => .unsup "flags terminator"
     | _ =>
       let idx := st.ncap + 1
-      match ({ st with ncap := idx } : PState).push st.flags (.cap idx) with
+      match ({ st with ncap := idx } : PState).push st.flags (.cap idx none) with
       | .err e => .err e
       | .unsup w => .unsup w
       | .ok st' => .ok (st', cs)
@@ -762,10 +779,10 @@ def parseGroupOpen (st : PState) (cs : Str) : PR (PState × Str) :=
 /-- the sub-expression of the level being closed -/
 def PState.levelItem (st : PState) : Item := mkAlt ((mkConcat st.cat.reverse :: st.alts).reverse)
 
-def hirDot (fl : Flags) : Ast :=
-  if fl.dotnl then .cls [(0, 0x10FFFF)]
-  else if fl.crlf then .cls [(0, 9), (11, 12), (14, 0x10FFFF)]
-  else .cls [(0, 9), (11, 0x10FFFF)]
+def hirDot (fl : Flags) : Item :=
+  if fl.dotnl then Item.ofCls [(0, 0x10FFFF)]
+  else if fl.crlf then Item.ofCls [(0, 9), (11, 12), (14, 0x10FFFF)]
+  else Item.ofCls [(0, 9), (11, 0x10FFFF)]
 def hirStart (fl : Flags) : Ast := .look (if fl.ml then (if fl.crlf then .lineStartCRLF else .lineStart) else .textStart)
 def hirEnd (fl : Flags) : Ast := .look (if fl.ml then (if fl.crlf then .lineEndCRLF else .lineEnd) else .textEnd)
 
@@ -797,7 +814,7 @@ def parseLoop : Nat → PState → Str → PR PState
       | [] => .err "found closing ')' without matching '('"
       | fr :: stack =>
         let inner := st.levelItem
-        let item := match fr.kind with | .cap idx => mkCap idx inner | .non => inner
+        let item := match fr.kind with | .cap idx nl => mkCap idx nl inner | .non => inner
         parseLoop f { st with stack := stack, alts := fr.alts, cat := item :: fr.cat, flags := fr.flags } cs
     else if c == '|' then
       parseLoop f { st with alts := mkConcat st.cat.reverse :: st.alts, cat := [] } cs
@@ -805,7 +822,7 @@ def parseLoop : Nat → PState → Str → PR PState
       match parseClass st.flags cs with
       | .err e => .err e
       | .unsup w => .unsup w
-      | .ok (rs, r) => parseLoop f (st.pushItem ⟨.cls rs, 0⟩) r
+      | .ok (rs, r) => parseLoop f (st.pushItem (Item.ofCls rs)) r
     else if c == '?' || c == '*' || c == '+' then
       let (lazy, r) := match cs with | '?' :: r => (true, r) | r => (false, r)
       let (mn, mx) : Nat × Option Nat := if c == '?' then (0, some 1) else if c == '*' then (0, none) else (1, none)
@@ -833,17 +850,21 @@ def parseLoop : Nat → PState → Str → PR PState
       match parseEscape st.flags cs with
       | .err e => .err e
       | .unsup w => .unsup w
-      | .ok (p, r) => parseLoop f (st.pushItem ⟨p.toAst, 0⟩) r
-    else if c == '.' then parseLoop f (st.pushItem ⟨hirDot st.flags, 0⟩) cs
-    else if c == '^' then parseLoop f (st.pushItem ⟨hirStart st.flags, 0⟩) cs
-    else if c == '$' then parseLoop f (st.pushItem ⟨hirEnd st.flags, 0⟩) cs
-    else parseLoop f (st.pushItem ⟨(hirChar st.flags c).toAst, 0⟩) cs
+      | .ok (p, r) => parseLoop f (st.pushItem p.toItem) r
+    else if c == '.' then parseLoop f (st.pushItem (hirDot st.flags)) cs
+    else if c == '^' then parseLoop f (st.pushItem (Item.leaf (hirStart st.flags))) cs
+    else if c == '$' then parseLoop f (st.pushItem (Item.leaf (hirEnd st.flags))) cs
+    else parseLoop f (st.pushItem (hirChar st.flags c).toItem) cs
 
-/-- bound on `cost` below which the compiled NFA is certainly far below regex-lite's size limit
-    (10 MiB; a state takes 32 bytes plus 8 per range / 4 per split target) -/
-def costLimit : Nat := 50000
+/-- `nfa::Config::default().size_limit` -/
+def sizeLimit : Nat := 10 * 2 ^ 20
 
-/-- `Regex::new`: parse, nesting check, NFA construction -/
+/-- `NFA::memory_usage` of the finished automaton: 32 bytes per state (the item, the two states of group 0, the
+    match state), 16 per group, the extras -/
+def memoryUsage (item : Item) : Nat :=
+  32 * (item.states + 3) + 16 * (maxIdx item.ast + 1) + item.extra + item.nameExtra
+
+/-- `Regex::new`: parse, nesting check, NFA construction (size limit) -/
 def compileP (p : Str) : PR Compiled :=
   match parseLoop (p.length + 1) {} p with
   | .err e => .err e
@@ -851,7 +872,7 @@ def compileP (p : Str) : PR Compiled :=
   | .ok st =>
     let item := st.levelItem
     if item.h > nestLimit then .err "pattern has too much nesting"
-    else if cost item.ast > costLimit then .unsup "size"
+    else if memoryUsage item > sizeLimit then .err "compiled regex exceeded size limit"
     else if !loopsOk item.ast then .unsup "nullable loop"
     else .ok ⟨item.ast, maxIdx item.ast + 1, st.names⟩
 
